@@ -13,9 +13,11 @@ use std::collections::{BTreeMap, HashSet, VecDeque};
 use std::panic::{AssertUnwindSafe, catch_unwind};
 use std::path::Path;
 
-pub const KINDS: [&str; 15] = [
+pub const KINDS: [&str; 17] = [
     "fn-added", "fn-removed", "sig-changed", "struct-field-added", "struct-field-retyped", "enum-variant-added", "enum-payload-changed",
     "trait-method-added", "impl-added", "impl-removed", "type-renamed", "generic-param-added", "bound-added", "bound-removed", "bound-changed",
+    // two inherent impls for two instances of one generic struct, each with a bounded method of one name
+    "method-bound-changed-first-impl", "method-bound-changed-second-impl",
 ];
 pub const GRAPHS: [&str; 5] = ["chain", "diamond", "fan", "triangle", "triangle-rev"];
 
@@ -94,6 +96,11 @@ fn lib_source(l: &str, deps: &[&str], variant: u8, kind: &str) -> String {
         s.push_str(&format!("fn r{}[T: T{}](x: T) -> int32 {{ T{}::t(x) }}\n", l, l, l));
     } else {
         s.push_str(&format!("fn r{}[T](x: T) -> int32 {{ 0 }}\n", l));
+    }
+    s.push_str(&format!("struct Bx{}[T] {{ v: T }}\n", l));
+    for (which, inst) in [("method-bound-changed-first-impl", "int32"), ("method-bound-changed-second-impl", "bool")] {
+        let (tr, m) = if iface && kind == which { (format!("U{}", l), "u") } else { (format!("T{}", l), "t") };
+        s.push_str(&format!("impl Bx{l}[{inst}] {{ fn run[V: {tr}](self: Bx{l}[{inst}], w: V) -> int32 {{ {tr}::{m}(w) }} }}\n", l = l, inst = inst, tr = tr, m = m));
     }
     let mut body = format!("x + {}", k);
     for d in deps {
@@ -232,7 +239,7 @@ impl Family for Staleness {
         900
     }
     fn rule(&self) -> &'static str {
-        "graphs {chain Main->A->B, diamond Main->{A,B}->C, fan Main->{A,B}, triangle Main->{A,B} with B->A, and with A->B} x 15 kinds of interface-changing edit (fn added/removed/signature changed, struct field added/retyped, enum variant added/payload changed, trait method added, impl added/removed, type renamed, generic parameter added, trait bound of a generic function added/removed/changed); each library has source variants {v0, body-only edit, interface-changing edit}; actions = edit(pkg,variant), check(pkg), build(pkg), tamper(pkg) (overwrite the dependency hashes at the top of a stale .core file with the current ones, as a user pasting the hash from the link error would), link; breadth-first search over all histories to depth 5 (quick) / 7 (thorough) with states deduplicated by (source variants, artifact file contents, the model's versions); every transition runs the real functions on real files. Reference model: symbolic interface versions (pkg, interface variant, versions of deps at build time). Oracle in every state: the dependency hashes a built/checked package records are those of the interface files it was built against; build/check succeed iff the model says the dependencies' interfaces exist; link succeeds iff every core exists and every recorded dependency version equals the version embedded in that dependency's core; a successful link prints the value denoted by the sources that were built; body-only edits leave the interface bytes unchanged and interface edits change the hash. non-trivial = states in which some package is stale; distinct = distinct states"
+        "graphs {chain Main->A->B, diamond Main->{A,B}->C, fan Main->{A,B}, triangle Main->{A,B} with B->A, and with A->B} x 17 kinds of interface-changing edit (fn added/removed/signature changed, struct field added/retyped, enum variant added/payload changed, trait method added, impl added/removed, type renamed, generic parameter added, trait bound of a generic function added/removed/changed, bound of a method changed in the first / second of two inherent impls for two instances of one generic struct that give the method one name); each library has source variants {v0, body-only edit, interface-changing edit}; actions = edit(pkg,variant), check(pkg), build(pkg), tamper(pkg) (overwrite the dependency hashes at the top of a stale .core file with the current ones, as a user pasting the hash from the link error would), link; breadth-first search over all histories to depth 5 (quick) / 7 (thorough) with states deduplicated by (source variants, artifact file contents, the model's versions); every transition runs the real functions on real files. Reference model: symbolic interface versions (pkg, interface variant, versions of deps at build time). Oracle in every state: the dependency hashes a built/checked package records are those of the interface files it was built against; build/check succeed iff the model says the dependencies' interfaces exist; link succeeds iff every core exists and every recorded dependency version equals the version embedded in that dependency's core; a successful link prints the value denoted by the sources that were built; body-only edits leave the interface bytes unchanged and interface edits change the hash. non-trivial = states in which some package is stale; distinct = distinct states"
     }
     fn cases(&self, tier: Tier) -> Box<dyn Iterator<Item = Value> + '_> {
         let mut v = Vec::new();
